@@ -10,6 +10,7 @@ import (
 	"github.com/MichaelMure/git-bug/entities/bug"
 	"github.com/MichaelMure/git-bug/entities/identity"
 	"github.com/MichaelMure/git-bug/entity"
+	"github.com/MichaelMure/git-bug/util/lamport"
 
 	"verif/harness/gitraw"
 	"verif/harness/refmodel"
@@ -20,12 +21,14 @@ import (
 
 // Action is one step of a replica schedule.
 type Action struct {
-	Op     string         `json:"op"` // new|edit|push|pull|fetch|merge|idmut
+	Op     string         `json:"op"` // new|edit|push|pull|fetch|merge|idmut|jump (the replica's edit clock moves 1.2M ahead, as after witnessing a busy unrelated bug)
 	R      int            `json:"r"`
 	Bug    int            `json:"bug,omitempty"` // index into the scenario's creation-ordered bug list
 	Remote string         `json:"remote,omitempty"`
 	Specs  []world.OpSpec `json:"specs,omitempty"`
 	Author int            `json:"author,omitempty"`
+	// Foreign (idmut): mutate the Author-th identity that this replica holds but did not create
+	Foreign bool `json:"foreign,omitempty"`
 }
 
 // Scenario is a replayable schedule over a world.
@@ -566,8 +569,35 @@ func RunScenario(sc Scenario) (res *ScenarioResult) {
 			e.pull(r, remote, true, false)
 		case "merge":
 			e.pull(r, remote, false, true)
+		case "jump":
+			cur := uint64(0)
+			if clocks, err := r.Repo.AllClocks(); err == nil {
+				if c, ok := clocks["bugs-edit"]; ok {
+					cur = uint64(c.Time())
+				}
+			}
+			if err := r.Repo.Witness("bugs-edit", lamport.Time(cur+1_200_000)); err != nil {
+				res.ActionErrors = append(res.ActionErrors, "jump: "+errClass(err))
+			}
 		case "idmut":
 			au := r.Authors[a.Author%len(r.Authors)]
+			if a.Foreign {
+				own := map[entity.Id]bool{}
+				for _, x := range r.Authors {
+					own[x.Id()] = true
+				}
+				var foreign []*identity.Identity
+				for se := range identity.ReadAllLocal(r.Repo) {
+					if se.Err == nil && !own[se.Entity.Id()] {
+						foreign = append(foreign, se.Entity)
+					}
+				}
+				if len(foreign) == 0 {
+					continue
+				}
+				sort.Slice(foreign, func(x, y int) bool { return foreign[x].Name() < foreign[y].Name() }) // "<replica>-author<k> ..."
+				au = foreign[a.Author%len(foreign)]
+			}
 			err := au.Mutate(r.Repo, func(m *identity.Mutator) { m.Name = fmt.Sprintf("%s v%d", m.Name, i) })
 			if err == nil && au.NeedCommit() {
 				err = au.Commit(r.Repo)
@@ -630,6 +660,18 @@ func (e *engine) syncAndCompare() {
 		}
 	}
 	if !e.res.Quiescent {
+		// the exchange cannot complete: when the reason is a replica that cannot read a bug it wrote itself (every ref
+		// in these worlds was written by git-bug's own commit and merge), the replicas will never show the same state
+		for _, r := range e.w.Replicas {
+			ids, _ := r.BugIds()
+			sort.Slice(ids, func(i, j int) bool { return ids[i] < ids[j] })
+			for _, id := range ids {
+				if _, err := world.ReadBug(r.Repo, id); err != nil {
+					e.find("converge", "no-convergence:replica-cannot-read-its-own-bug:"+errClass(err), fmt.Sprintf("after %d rounds of pull and push the replicas still differ, and %s cannot read bug %s that its own merge or commit wrote: %v", e.res.SyncRounds, r.Name, id.Human(), err))
+					return
+				}
+			}
+		}
 		return
 	}
 	// everything exchanged: compare every bug on every pair of replicas
@@ -794,6 +836,20 @@ func TargetedScenario(a, b int, peers bool, authors int, variant int, rng *rand.
 		} else {
 			acts = append(acts, Action{Op: "push", R: 0}, Action{Op: "pull", R: 1})
 		}
+	case 6: // the merging replica's clock is far ahead (merge commits may jump, ordinary commits may not)
+		acts = append(acts, Action{Op: "jump", R: 1}, Action{Op: "push", R: 0}, Action{Op: "pull", R: 1}, Action{Op: "push", R: 1}, Action{Op: "pull", R: 0})
+	case 7, 8: // the same identity gets new versions on both replicas, more on one side: the pull must refuse and keep the local chain
+		more, less := 0, 1
+		if variant == 8 {
+			more, less = 1, 0
+		}
+		mut := func(r int) Action { return Action{Op: "idmut", R: r, Author: 0, Foreign: r == 1} } // (r1 only holds r0's authors as foreign identities, sorted by name: index 0 is r0-author0)
+		acts = append(acts, Action{Op: "push", R: 0}, Action{Op: "pull", R: 1})
+		for k := 0; k < 2+a%2; k++ {
+			acts = append(acts, mut(more))
+		}
+		acts = append(acts, mut(less), Action{Op: "push", R: 0}, Action{Op: "pull", R: 1})
+		sc.SkipSync = true
 	case 3: // repeated cross merges
 		acts = append(acts, Action{Op: "push", R: 0}, Action{Op: "pull", R: 1}, Action{Op: "push", R: 1})
 		for k := 0; k < 2; k++ {
